@@ -215,11 +215,11 @@ func genC10RT(x *Ctx) {
 		}
 	}
 	// (c) random well-formed streams: several calls, several units per call, paired parameter sets
-	for i, n := 0, x.N(6000, 400000); i < n; i++ {
+	for i, n := 0, x.N(12000, 600000); i < n; i++ {
 		x.Case(func(c *Case) {
 			disable := c.R.Chance(1, 4)
 			avc := c.R.Bool()
-			baseMtu := c.R.Pick(c.R.Range(3, 64), c.R.Range(3, 64), c.R.Range(3, 16), 1200)
+			baseMtu := c.R.Pick(c.R.Range(3, 64), c.R.Range(3, 64), c.R.Range(3, 16), c.R.Range(3, 64), 1200, c.R.Pick(1200, 1500, 65535, 100, 255, 256))
 			ncalls := c.R.Range(1, 4)
 			// the whole stream of units first, then cut into calls
 			var stream [][]byte
@@ -229,7 +229,7 @@ func genC10RT(x *Ctx) {
 				case r == 0:
 					stream = append(stream, h264Nal(c.R, c.R.Pick(9, 12), c.R.Range(2, 6)))
 				case r <= 2:
-					tot := c.R.Pick(c.R.Range(4, 12), baseMtu-5+c.R.Range(-1, 1), c.R.Range(4, 40))
+					tot := c.R.Pick(c.R.Range(4, 12), min(baseMtu, 1500)-5+c.R.Range(-1, 1), c.R.Range(4, 40))
 					if tot < 4 {
 						tot = 4
 					}
@@ -242,9 +242,9 @@ func genC10RT(x *Ctx) {
 					if c.R.Chance(1, 4) {
 						stream = append(stream, h264Nal(c.R, c.R.Pick(9, 12), 3))
 					}
-					stream = append(stream, h264Nal(c.R, h264OtherType(c.R), c.R.Size(3*baseMtu, baseMtu, 2*baseMtu-3)))
+					stream = append(stream, h264Nal(c.R, h264OtherType(c.R), c.R.Size(min(3*baseMtu, 3000), baseMtu, 2*baseMtu-3)))
 				default:
-					stream = append(stream, h264Nal(c.R, h264OtherType(c.R), c.R.Size(4*baseMtu, baseMtu, 2*baseMtu-3, 3*baseMtu-5)))
+					stream = append(stream, h264Nal(c.R, h264OtherType(c.R), c.R.Size(min(4*baseMtu, 4000), baseMtu, 2*baseMtu-3, 3*baseMtu-5)))
 				}
 			}
 			var calls []h264Call
@@ -280,9 +280,28 @@ func genC10RT(x *Ctx) {
 			runH264RT(c, disable, avc, calls)
 		})
 	}
+	// (c') units longer than 2^16 (AVC length prefix, uint16 STAP-A sizes that wrap), thorough only
+	if x.Thorough() {
+		for _, mtu := range []int{1200, 65535, 3} {
+			for _, disable := range []bool{false, true} {
+				mtu, disable := mtu, disable
+				x.Case(func(c *Case) {
+					c.Tag("huge")
+					big := 65536 + c.R.Range(0, 600)
+					if mtu == 3 {
+						big = 3000
+					}
+					sps := h264Nal(c.R, 7, c.R.Pick(10, big))
+					pps := h264Nal(c.R, 8, c.R.Pick(4, 65530))
+					idr := h264Nal(c.R, 5, big)
+					runH264RT(c, disable, c.R.Bool(), []h264Call{{mtu: mtu, units: []h264Unit{{true, sps}, {false, pps}, {true, idr}}}})
+				})
+			}
+		}
+	}
 	// (d) streams outside the hypotheses (correspondence and no-panic only): unpaired parameter
 	//     sets, types 0 and 24..31, one-byte units, trailing zeros, embedded start codes, MTU 0..2
-	for i, n := 0, x.N(3000, 200000); i < n; i++ {
+	for i, n := 0, x.N(8000, 200000); i < n; i++ {
 		x.Case(func(c *Case) {
 			c.Tag("outside-wf")
 			disable := c.R.Chance(1, 4)
@@ -495,7 +514,7 @@ func genC10Dec(x *Ctx) {
 			})
 		}
 	}
-	for i, n := 0, x.N(6000, 400000); i < n; i++ {
+	for i, n := 0, x.N(20000, 400000); i < n; i++ {
 		x.Case(func(c *Case) {
 			run(c, c.R.Bool(), randomH264Plan(c.R, c.R.Range(1, 6)))
 		})
@@ -593,7 +612,7 @@ func h264Garbage(r *Rand) []byte {
 
 func genC15H264(x *Ctx) {
 	// (a) every delivery subset of the packets of a preceding frame, then an intact frame
-	nframes := x.N(24, 600)
+	nframes := x.N(60, 600)
 	for fi := 0; fi < nframes; fi++ {
 		maxp := 10
 		if !x.Thorough() && fi%6 != 0 {
@@ -623,7 +642,7 @@ func genC15H264(x *Ctx) {
 		}
 	}
 	// (b) arbitrary byte strings as prehistory, then an intact frame
-	for i, n := 0, x.N(4000, 300000); i < n; i++ {
+	for i, n := 0, x.N(15000, 300000); i < n; i++ {
 		x.Case(func(c *Case) {
 			var pre [][]byte
 			for j, m := 0, c.R.Range(0, 6); j < m; j++ {
@@ -757,7 +776,7 @@ func genC08H264(x *Ctx) {
 		}
 	}
 	// (b) random histories
-	for i, n := 0, x.N(5000, 400000); i < n; i++ {
+	for i, n := 0, x.N(20000, 400000); i < n; i++ {
 		x.Case(func(c *Case) {
 			disable := c.R.Chance(1, 3)
 			base := c.R.Pick(c.R.Range(0, 20), c.R.Range(0, 20), c.R.Range(21, 64), 1200, 1500, 65535)
@@ -942,7 +961,7 @@ func genC09H264(x *Ctx) {
 		})
 	}
 	// (c) mutated valid payloads and codec-specific garbage
-	for i, n := 0, x.N(4000, 300000); i < n; i++ {
+	for i, n := 0, x.N(12000, 300000); i < n; i++ {
 		x.Case(func(c *Case) {
 			var seq [][]byte
 			for j, m := 0, c.R.Range(1, 12); j < m; j++ {
